@@ -21,12 +21,14 @@ Schemas == IF Shared THEN {"s5", "s6"} ELSE {"s1", "s2", "s3", "s4"}
 FreshDocs == IF Shared THEN {"d5", "d6"} ELSE {"d1", "d2", "d3", "d4"}
 Docs == IF Shared THEN {} ELSE {"x1", "x2", "x3"}      \* persistent Document objects: valid / malformed / valid + trailing garbage
 SchemaOps == {"check", "len", "example", "getast", "used"}
-Ops == {[op |-> o, obj |-> s, arg |-> ""] : o \in SchemaOps, s \in Schemas}
-  \cup {[op |-> "validate", obj |-> s, arg |-> d] : s \in Schemas, d \in FreshDocs}
+\* World "docs": only the persistent documents (cursor discipline of Check / Len / NextLexeme / Validate), so that longer histories fit
+DocsOnly == World = "docs"
+Ops == (IF DocsOnly THEN {} ELSE {[op |-> o, obj |-> s, arg |-> ""] : o \in SchemaOps, s \in Schemas})
+  \cup (IF DocsOnly THEN {} ELSE {[op |-> "validate", obj |-> s, arg |-> d] : s \in Schemas, d \in FreshDocs})
   \cup {[op |-> o, obj |-> x, arg |-> ""] : o \in {"dcheck", "dlen", "dnext", "ddrain"}, x \in Docs}
   \cup {[op |-> "dvalidate", obj |-> "s1", arg |-> x] : x \in Docs}
-  \cup (IF Shared THEN {} ELSE {[op |-> o, obj |-> "e1", arg |-> ""] : o \in {"echeck", "evalues", "east", "elen"}})
-  \cup (IF Shared THEN {} ELSE {[op |-> o, obj |-> "r1", arg |-> ""] : o \in {"rpattern", "rexample", "rlen"}})
+  \cup (IF Shared \/ DocsOnly THEN {} ELSE {[op |-> o, obj |-> "e1", arg |-> ""] : o \in {"echeck", "evalues", "east", "elen"}})
+  \cup (IF Shared \/ DocsOnly THEN {} ELSE {[op |-> o, obj |-> "r1", arg |-> ""] : o \in {"rpattern", "rexample", "rlen"}})
 
 \* cursor[x] : number of lexemes already delivered by NextLexeme, or -1 when the position is undefined
 \* once[o]   : which once-caches of object o are filled (I layer bookkeeping)
